@@ -141,7 +141,55 @@ Fixpoint first_of (rs : list N) (ts : list tree) : option tree :=
   | t :: ts' => if existsb (N.eqb (t_rule t)) rs then Some t else first_of rs ts'
   end.
 
-Definition conv_value (t : tree) : bres (list N) :=
+(* try_unescape_text: a text literal is rejected ("Invalid escape sequence in text string") when a \u escape does not
+   denote a Unicode scalar value: lone or reversed surrogate, value above U+10FFFF (or not fitting u32) *)
+Fixpoint hex_digits (s : list N) (acc : list N) : list N * list N :=      (* leading hex digits, rest *)
+  match s with
+  | c :: s' => match digit_val c with Some _ => hex_digits s' (c :: acc) | None => (rev acc, s) end
+  | [] => (rev acc, [])
+  end.
+Definition is_scalar (n : N) : bool := (n <? 55296) || ((57343 <? n) && (n <? 1114112)).
+Fixpoint take4hex (k : nat) (s : list N) (acc : N) : option (N * list N) :=
+  match k with
+  | O => Some (acc, s)
+  | S k' => match s with
+            | c :: s' => match digit_val c with Some d => take4hex k' s' (acc * 16 + d) | None => None end
+            | [] => None
+            end
+  end.
+Fixpoint escapes_ok (fuel : nat) (s : list N) : bool :=
+  match fuel with
+  | O => true
+  | S f =>
+    match s with
+    | [] => true
+    | 92 :: 117 :: 123 :: s' =>                                  (* \u{ *)
+        let (hx, rest) := hex_digits s' [] in
+        match parse_radix 16 hx 0, hx with
+        | Some n, _ :: _ => (n <? 4294967296) && is_scalar n &&
+                            escapes_ok f (match rest with 125 :: r => r | _ => rest end)
+        | _, _ => false
+        end
+    | 92 :: 117 :: s' =>                                         (* \uXXXX *)
+        match take4hex 4 s' 0 with
+        | None => false
+        | Some (n, rest) =>
+            if (55296 <=? n) && (n <=? 56319) then
+              match rest with
+              | 92 :: 117 :: r2 => match take4hex 4 r2 0 with
+                                   | Some (lo, r3) => (56320 <=? lo) && (lo <=? 57343) && escapes_ok f r3
+                                   | None => false
+                                   end
+              | _ => false
+              end
+            else is_scalar n && escapes_ok f rest
+        end
+    | 92 :: _ :: s' => escapes_ok f s'
+    | _ :: s' => escapes_ok f s'
+    end
+  end.
+
+Definition conv_value (w : list N) (t : tree) : bres (list N) :=
   match first_of [r_number; r_text_value; r_bytes_value] (t_children t) with
   | None => BSem
   | Some v =>
@@ -151,7 +199,9 @@ Definition conv_value (t : tree) : bres (list N) :=
                     else if t_rule n =? r_int_value then BOk (str "I") else BOk (str "F")
         | None => BSem
         end
-      else if t_rule v =? r_text_value then BOk (str "S")
+      else if t_rule v =? r_text_value then
+        let body := removelast (tl (t_text w v)) in
+        if escapes_ok (S (length body)) body then BOk (str "S") else BSem
       else
         match first_of [r_bytes_utf8; r_bytes_b16; r_bytes_b64; r_bytes_h_quoted] (t_children v) with
         | Some b => if t_rule b =? r_bytes_b16 then BOk (str "B16")
@@ -281,7 +331,7 @@ with conv_type2 (fuel : nat) (t : tree) {struct fuel} : bres st2 :=
         end
       else
         match last_child r_value ch None with
-        | Some v => bbind (conv_value v) (fun k => BOk (SLit k))
+        | Some v => bbind (conv_value w v) (fun k => BOk (SLit k))
         | None => match last_child r_typename ch None with
                   | Some n => bbind (conv_args f ch) (fun a => BOk (SName (conv_ident w n) a))
                   | None => BOk SAny
@@ -385,7 +435,7 @@ with conv_key (fuel : nat) (is_cut : bool) (t : tree) {struct fuel} : bres skey 
           if t_rule x =? r_type1 then bbind (conv_type1 f x) (fun s1 => BOk (KType1 is_cut s1))
           else if t_rule x =? r_bareword then BOk (KBare (t_text w x))
           else if t_rule x =? r_typename then BOk (KBare (conv_ident w x))
-          else bbind (conv_value x) (fun k =>
+          else bbind (conv_value w x) (fun k =>
                  match k with
                  | [85] | [73] | [70] | [83] => BOk (KVal k)
                  | _ => BSem                           (* "Invalid member key value": byte-string keys *)
